@@ -153,4 +153,21 @@ def run(tier, seed, replay):
     rep.cov["samples"] = [dict(request=l, implementation=a, model=b) for l, a, b in list(zip(lines, impl, model))[off:off + 4]]
     rep.assumptions = ["update tick 0 (1 byte) and empty server-tick range inside the hook; the model takes both lengths as parameters",
                        "Layer 1 part of C10 (any subset of a tick's mutate messages updates entities/groups completely or not at all) is exercised by the sim correspondence, see DESIGN.md"]
+    # Layer 1: small max_size so that a tick's mutations go out in several messages, arbitrary subsets/orders delivered
+    import simcheck
+    rc, out = build_harness(["sim"])
+    if rc != 0:
+        rep.violation("harness-build", dict(what="sim harness does not build", log=out[-2000:]), False)
+        return rep.finish()
+    kws = [dict(max_size=1, weights=dict(drop=1.5, sop=7.0)), dict(max_size=30, weights=dict(drop=1.5)), dict(max_size=60, track=True), dict(max_size=1, nclients=2, track=True)]
+    o2, d2 = simcheck.sim_collect(rep, "C10", tier, rng, seed, kws, 160, 4000, oracle_props={"C10", "C02"},
+                                  rule_extra=", tiny per-client max message sizes so that every tick's mutations are split, with mutate messages dropped and reordered")
+    if o2 and not oracle_fail:
+        f = o2[0]
+        rep.violation("oracle", dict(what="implementation violates C10 on a concrete script", problem=f["problem"], script=f.get("shrunk", f["script"])), True)
+        return rep.finish()
+    if d2 and not (oracle_fail or diverged):
+        f = d2[0]
+        rep.violation("correspondence", dict(what="Layer 1 model and implementation disagree", first_divergence=f.get("shrunk_divergence", f["divergence"]), script=f.get("shrunk", f["script"])), False)
+        return rep.finish()
     return conclude(rep, proofs_ok, oracle_fail, diverged, "RV.Pack.Packing (mutations_split, can_pack)")
